@@ -77,24 +77,38 @@ LEVEL_TEXT = ("Lean theorems over R about the 17 edge functions, the M2E reducti
               "circle and exact inside one turn; Kepler-equation residual at the returned value for both conics (2 tol (1+e) / 8 e cosh H tol^2) and "
               "eccentric<->mean round trips, for every fuel, every M and every start branch; keplerian->cartesian invariant under the circle relation and "
               "definition-true (radius, vis-viva, angular momentum, r.v, node-line component); routing = unique tree walk (C20), walk round trip by "
-              "induction over the path (exact form); Infos relations. Differential correspondence of every edge, M2E, Infos and StateVector.copy "
-              "along the routed walk against the compiled Lean model.")
+              "induction over the path (exact form); Infos relations. "
+              "The object as a state machine (Model/SVMachine: six numbers, form, frame with the mu of its centre, the _data['infos'] slot with the memoising "
+              "helper; operations = element / slice / name assignment, in-place arithmetic, form setter, frame setter, copy(frame=, form=), infos read), its "
+              "setters INTERPRETING the order of effects read from the AST on every run: for every history the reports and the final state are a function of "
+              "(six numbers, form, frame, mu) only (no hidden state), a read returns what a fresh object returns and never disturbs, the frame setter writes the "
+              "elements of the transformed cartesian state for the mu of the NEW centre and the object then stands for exactly that state, form there-and-back "
+              "returns the numbers; `decide`d facts about the regenerated tables (helper never reused, frame committed before the form is restored, convert "
+              "before commit, copy: frame then form). Differential correspondence of every edge, M2E, Infos, StateVector.copy along the routed walk, and of "
+              "random operation histories on real StateVector / Orbit objects (4 central bodies, 16 frames) against the compiled Lean model.")
 LEVEL_NOTE = ("proof (partial): not proved are (1) that every cartesian state with h != 0, sin i != 0, e != 0 is the view of some elements (so "
               "cartesian->keplerian->cartesian is proved on the image of keplerian->cartesian only), (2) termination of the Kepler loop (fuel; covered by "
-              "correspondence with fuel 10^4 and a watchdog oracle), (3) the walk round trip for links that return angles modulo 2 pi as one statement; "
+              "correspondence with fuel 10^4 and a watchdog oracle), (3) the walk round trip for links that return angles modulo 2 pi as one statement "
+              "(setFrame_cartesian_view / setForm_back take the per-link round trips on the visited states as hypothesis, like walk_roundtrip_exact); "
               "R -> double gap covered by tolerance-bounded correspondence; Lean kernel + propext/Classical.choice/Quot.sound; py2lean translator trusted")
-TECHNIQUE = "Lean 4 proof over edge formulas translated from the Python AST (py2lean) on every run; differential correspondence per edge; API oracle"
+TECHNIQUE = ("Lean 4 proof over edge formulas translated from the Python AST (py2lean) on every run and over a state machine of the object interpreting setter "
+             "orders read from the AST; differential correspondence per edge and per operation history; API oracle")
 TRUSTED = [
     "harness/py2lean.py translate_fn/translate_expr: Python AST of the 17 `_a_to_b` methods, M2E pieces and 13 Infos properties -> Generated/Forms{F,R}.lean on every run",
     "harness/props/C01.py m2e_pieces: checks that the M2E loop and the mean->eccentric edge still have exactly the modelled shape (AST equality), else the run is reported broken",
+    "harness/props/C01.py sv_tables: reads the order of the effects of the form setter, the frame setter and copy, and the two keys of the infos property, from the AST into Generated/SVTables.lean; "
+    "checks by AST equality that Infos.__init__/kep/sphe/mu/r, Form.__call__ and Frame.transform have the modelled shape, else the run is reported broken",
     "lean/templates/Forms.tpl: hand-written fuel loop, 6-list plumbing, name dispatch (tied by the correspondence run)",
+    "lean/templates/SVMachine.tpl: hand-written interpreter of the setter steps, name/alias resolution over the regenerated tables, routing by C20's Node.path on the regenerated forms graph (tied by the history correspondence)",
+    "the affine map of a frame change (rotation 6x6, offset of the centres) is an INPUT of the machine, computed from the orientation / centre objects (their correctness belongs to C02/C03)",
     "atan2 y x := Complex.arg (x + iy), Python % := x - m floor(x/m), np.linalg.norm := sqrt of the sum of squares (NumReal.lean / py2lean)",
-    "numpy / libm double arithmetic vs R: correspondence tolerance 1e-9 relative (scaled by the conditioning of arctanh near 1 for hyperbolic anomalies)",
+    "numpy / libm double arithmetic vs R: correspondence tolerance 1e-9 relative (scaled by the conditioning of arctanh near 1 for hyperbolic anomalies); histories: 2e-10 times the accumulated conditioning of the visited states",
 ]
 ASSUMPTIONS = [
     "theorems are over R; the implementation computes in IEEE doubles",
     "domains: off the z axis for spherical/cylindrical; e > 0 (circular forms, equinoctial), 0 < i < pi (equinoctial), 0 <= e < 1 or e > 1 with 1 + e cos(nu) > 0 (anomalies), a > 0 (TLE)",
     "angles are compared as points of the circle (same cos and sin); equality of numbers is proved inside the turn the code itself returns",
+    "histories: every state visited (also the intermediate state of copy(frame=, form=)) lies inside the property's quantifier about the centre of its frame, |H| <= 6, and the numbers written are themselves canonical elements (0 <= e, 0 < i < pi, r > 0 ...)",
 ]
 NOT_COVERED = [
     "cartesian -> keplerian -> cartesian for an ARBITRARY cartesian state: proved on the image of keplerian->cartesian (cart_kepl_cart_of_image); existence of elements for every state with h != 0, sin i != 0, e != 0 is not proved (oracle: independent textbook elements + round trips on the real API)",
@@ -102,17 +116,26 @@ NOT_COVERED = [
     "definition-truth of cartesian->keplerian (a from energy, e = |eccentricity vector|, node, perigee) is checked by the oracle against an independent numpy computation, not proved",
     "spherical rates as time derivatives (HasDerivAt) not proved; oracle uses central differences",
     "conditioning near e->0, i->0, e->1 (excluded by the quantifier); rounding",
+    "an Infos helper KEPT by the caller (`inf = sv.infos`) across an in-place change of sv: the helper memoises its keplerian / spherical views (modelled: Handle) while reading mu live; the property is checked for values read through `sv.infos` after the change, not through a helper obtained before it",
+    "views sharing the buffer (`sv[:]`, `sv.view()`), whose form label can diverge from the shared six numbers; writes of names that are no orbital element (stored in _data)",
+    "frame changes whose transform raises (unlinked centres, Hill frame): only the normal path of try/finally is modelled",
 ]
 OPEN = [
     "surjectivity of keplerian->cartesian onto the non-degenerate cartesian states (would turn cart_kepl_cart_of_image into the unconditional statement)",
     "termination of Form.M2E as a theorem (exists fuel, m2e fuel e M != none) for 0 <= e < 1 after the reduction of b41fd8b, and for e > 1",
-    "walk_roundtrip for paths through links that return angles as circle points: walk_roundtrip_exact is the induction over the path for links with exact round trips; the AngEq version needs 'respects AngEq' for all 18 edges (proved for keplerian->cartesian and keplerian->circular)",
+    "walk_roundtrip for paths through links that return angles as circle points: walk_roundtrip_exact is the induction over the path for links with exact round trips; the AngEq version needs 'respects AngEq' for all 18 edges (proved for keplerian->cartesian and keplerian->circular); the same gap is the RoundTrips hypothesis of setFrame_cartesian_view / setForm_back",
+    "cartesian view invariant under `sv.form = g` for arbitrary f, g (cancellation of the common part of the two tree paths to cartesian): proved only as there-and-back (setForm_back)",
 ]
 RULE = ("correspondence: 2500 (quick) / 40000 (thorough) orbits, alternating ellipse/hyperbola, e in [1e-4,0.99] u [1.001,20], i in [0.01,pi-0.01], "
         "any node/perigee, anomalies incl. M<0, M>2pi, |H|<=8, three bodies; every one of the 18 edge methods on each orbit, StateVector.copy along the "
-        "routed walk for a random pair, Form.M2E on all start branches, 13 Infos values; rtol 1e-9, angles mod 2pi; non-trivial = every case; "
+        "routed walk for a random pair, Form.M2E on all start branches, 13 Infos values; rtol 1e-9, angles mod 2pi; 150 (quick) / 3000 (thorough) random + 15 pinned "
+        "operation histories of 3-12 operations on real StateVector / Orbit objects (made directly, by copy, pickle, as_orbit, numpy arithmetic; some after a read of "
+        "the original) over 16 frames about Earth, Moon, Sun, Mars (constant-offset centres and the moving Moon / Sun of beyond.env.solarsystem), every state inside the "
+        "quantifier, compared after every operation (six numbers, outcome, 14 infos values) with the Lean state machine; non-trivial = every case; "
         "distinct = distinct request line. oracle: mean->cartesian vs an independent perifocal construction, 9 forms x 6 numbers vs textbook "
-        "definitions computed with numpy, 10x10 round trips (1e-6 r, 1e-6 v), Infos relations, Kepler residual of Form.M2E")
+        "definitions computed with numpy, 10x10 round trips (1e-6 r, 1e-6 v), Infos relations, Kepler residual of Form.M2E; 70 (quick) / 500 (thorough) random + 15 pinned "
+        "operation histories: after every operation the six numbers vs the textbook elements of the reference cartesian state for the mu of the CURRENT centre, "
+        "position/velocity directly and through another form, every infos quantity vs its defining relation and vs a freshly constructed object, the untouched original of a copy")
 
 FORMS_PY = os.path.join(core.REPO, "beyond", "orbits", "forms.py")
 SV_PY = os.path.join(core.REPO, "beyond", "orbits", "statevector.py")
@@ -141,6 +164,9 @@ def frames():
             fr.Frame(name, orient.EME2000, center.Center(name, body=b), exists_warning=False)
         out.append(fr.dynamic[name])
     return out
+
+
+unlinked_frames = frames
 
 
 def gen_elements(rng, conic=None):
@@ -539,11 +565,16 @@ def oracle(ctx, widened):
     # 5. histories of in-place operations on one object (element / slice / name assignment, in-place arithmetic, form and frame
     #    setters, copy(frame=, form=), infos reads), several central bodies: every observable equals the pure function of the current state
     hf = hist_frames()
-    for _ in range(500 if big else 70):
-        init, ops = gen_history(rng, hf, rng.randint(3, 14))
-        run_history(init, ops, hf, out)
-    for init, ops in pinned_histories(hf):
-        run_history(init, ops, hf, out)
+    skipped = []
+    for n in range((500 if big else 70) + 1):
+        try:
+            for init, ops in ([gen_history(rng, hf, rng.randint(3, 14))] if n else pinned_histories(hf)):
+                run_history(init, ops, hf, out)
+        except Exception as ex:      # the reference is built with conversions of fresh objects: a library whose conversions are broken can make that impossible
+            skipped.append(repr(ex))
+            out.tally("history skipped: the reference could not be built (a conversion of a fresh object failed)")
+    if skipped and not out.failures:
+        raise RuntimeError(f"{len(skipped)} histories could not be run and nothing else fails: {skipped[0]}")
     out.sample({"checks": "mean->cartesian vs textbook, definition truth of 9 forms, 10x10 round trips, infos relations, M2E residual, "
                           "operation histories on one object vs the cache-free reference semantics"})
     return out
@@ -848,6 +879,11 @@ def make_object(init, frames):
             sib = sv
             read_infos(sib, True)
             sv = pickle.loads(pickle.dumps(sib))
+        elif kind == "arith-after-read":
+            # the result of numpy arithmetic is a new object made by __array_finalize__ from the one that was read
+            sib = sv
+            read_infos(sib, False)
+            sv = sib + 0.0
     return sv, sib, date
 
 
@@ -940,7 +976,7 @@ def gen_start(rng, frames):
         if state_quality(mu, x) is None:
             continue
         form = rng.choice(sorted(src))
-        kind = rng.choice(["StateVector", "StateVector", "Orbit", "copy", "pickle", "as_orbit", "copy-after-read", "pickle-after-read"])
+        kind = rng.choice(["StateVector", "StateVector", "Orbit", "copy", "pickle", "as_orbit", "copy-after-read", "pickle-after-read", "arith-after-read"])
         return {"kind": kind, "six": [float(v) for v in src[form]], "form": form, "frame": fe["id"], "date": list(date),
                 "frame_by_name": rng.random() < 0.3}
     raise RuntimeError("no start state found")
@@ -1067,6 +1103,7 @@ def run_history(init, ops, frames, out=None, want_tokens=False):
     steps = []
     changed_since_read = init["kind"].endswith("after-read")   # the helper of the sibling was read before the copy was taken
     hist_input = {"init": init, "ops": ops}
+    n_fail0 = 0 if out is None else len(out.failures)
     for n, op in enumerate(ops):
         before = ref
         toks = op_tokens(op, before, frames) if want_tokens else None
@@ -1096,6 +1133,22 @@ def run_history(init, ops, frames, out=None, want_tokens=False):
                 break       # the object is wrong from here on: later steps would only repeat the finding
         if op["op"] == "infos":
             changed_since_read = False
+    if out is not None and steps and len(steps) == len(ops) and len(out.failures) == n_fail0:
+        # a change of frame that cannot be done (centre not linked to the others): it must raise and leave the object as it was
+        # (same frame, same form, the same position and velocity) — the `finally` path of the frame setter
+        q = steps[-1]["q"]
+        target = [f for f in unlinked_frames() if f.center.body is not ref.fe["body"]][len(ops) % 2]
+        raised = False
+        try:
+            sv.frame = target
+        except Exception:
+            raised = True
+        out.count(key=("frame-raises", init["six"][0], len(ops)), kind="history-frame-raises")
+        inp = dict(hist_input, step=len(ops) - 1, then=f"sv.frame = {target.name} (unlinked centre)", body=ref.fe["body"].name, frame=ref.fe["name"], form=ref.form)
+        if not raised:
+            out.fail("history-frame-unlinked-no-raise", "a change to a frame whose centre is not linked to the current one does not raise", inp)
+        else:
+            history_checks(out, sv, arr(sv).copy(), "D", "D", None, ref, q, f"history-frame-raises-{'mu-form' if ref.form in MU_FORMS else 'geometric-form'}", inp, {"op": "frame-raises"})
     if out is not None and sib is not None:
         # the object the copy was taken from has not been touched
         out.count(key=("sibling", init["six"][0], len(ops)), kind="history-sibling")
